@@ -24,7 +24,11 @@ def everything_is_wrapped_by_one_bucket(ctx):
             and c.args and norm(c.args[0]) == 'self._config.max_bandwidth' and q.in_loop(c) is None
         ctx.ob(f, c, ok, 'the bucket must be created once per manager with the configured max_bandwidth')
     mi = ctx.func('manager.TransferManager.__init__')
-    lims = [v for fn, v in ctx.cls('manager.TransferManager').init_attrs.get('_bandwidth_limiter', []) if fn is mi and isinstance(v, ast.Call)]
+    lims = []
+    for fn, v in ctx.cls('manager.TransferManager').init_attrs.get('_bandwidth_limiter', []):
+        if fn is mi:
+            cands = [d for _, d in q.local_defs(mi, v.id)] if isinstance(v, ast.Name) else [v]
+            lims += [d for d in cands if isinstance(d, ast.Call)]
     arg0 = q.resolve_local(mi, lims[0].args[0]) if len(lims) == 1 and lims[0].args else None
     ok = len(lims) == 1 and norm(lims[0].func) == 'BandwidthLimiter' and isinstance(arg0, ast.Call) and norm(arg0.func) == 'LeakyBucket' \
         and any(arg0 is c for _, c in sites)
